@@ -200,10 +200,12 @@ CHECKS['C08'] = dict(
          'slots, copy/move/swap of containers holding content, destruction of containers with content; every callback/payload object is a counted type: double '
          'destruction, use after destruction and, at every quiescent point, live instances != model content are violations; LeakSanitizer at exit; '
          'the "exceptions" part of the statement is covered by running the C09 fault enumeration (ledger after every injected fault), the AnyData holder by the C17 driver; '
+         'recycled queue slots are also exercised while producers and consumers run concurrently (the C06 runs, ASan and plain builds: a slot handed out again while its previous occupant is still alive, or a payload read after its consumer destroyed it, shows in the per-event state machine, the payload checksums, the assertions of the library itself and ASan); '
          'non-trivial/distinct as in C02/C05/C09/C17',
     jobs=JS('drv_cblist', 'asan', 'c08', 4000, 80000, M4, shards=4) + JS('drv_queue', 'asan', 'c08', 4200, 80000, MQ, seed_offset=2, shards=4)
          + JS('drv_fault', 'asan17-fault', '', 540, 9000, [0x03, 0x0c, 0x30, 0xc0, 0x100], seed_offset=3, shards=4, shards_thorough=8)
-         + JS('drv_anydata', 'asan17', 'random', 9000, 300000, [1, 2, 4], macro='VF_CAP_MASK', seed_offset=4, shards=3, shards_thorough=5),
+         + JS('drv_anydata', 'asan17', 'random', 9000, 300000, [1, 2, 4], macro='VF_CAP_MASK', seed_offset=4, shards=3, shards_thorough=5)
+         + [J('drv_queue_mt', 'asan', 'c06', 1600, 20000, seed_offset=5, shards=8, shards_thorough=16, label='slots-mt'), J('drv_queue_mt', 'plain', 'c06', 3200, 60000, seed_offset=6, shards=8, shards_thorough=16, label='slots-mt')],
     assumptions=['a removed callback must be released by the next quiescent point (no invocation in progress)'],
     technique='instance ledger of counted callback/payload types checked at every quiescent point + ASan/LeakSanitizer, driven by the list and queue monitors in lifetime mode',
     level_text='Exploration: the ledger knows every live instance by kind and id; after each top-level operation the live set must equal what the model says the containers hold, and after destruction it must be empty.',
@@ -295,10 +297,12 @@ CHECKS['C13'] = dict(
     rule='the C05 histories on queues with QueueList=OrderedQueueList (ascending keys; key%4 descending with many ties): model keeps the pending list '
          'stably sorted, re-queued events merged before newer equals; independent per-call monotonicity/stability check from the dispatch trace; '
          'the "exactly once" part also for an enqueue that FAILS because the comparator throws (the ordered-queue family of the C09 fault enumeration: every comparison of every enqueue throws once; the event must then not be in the queue, the order of the others must be intact, and the history continues); '
+         'stability of equal keys is also checked while producers keep enqueuing next to one consumer that takes events out and puts them back (processUntil): per producer and key the consumer must see enqueue order (the ordered configuration of the C06 concurrent runs); '
          'non-trivial as C05; distinct = trace hash',
     jobs=[J('drv_queue', 'asan', 'c13', 2000, 100000, defs=['-DVF_CFG_MASK=0x818'], shards=8),
           J('drv_queue', 'plain', 'c13', 4000, 200000, defs=['-DVF_CFG_MASK=0x818'], seed_offset=1, shards=8),
-          J('drv_fault', 'asan17-fault', '', 600, 12000, defs=['-DVF_CFG_MASK=0x30'], opts={'kind': '5'}, seed_offset=2, shards=8, shards_thorough=16, label='throwing-comparator')],
+          J('drv_fault', 'asan17-fault', '', 600, 12000, defs=['-DVF_CFG_MASK=0x30'], opts={'kind': '5'}, seed_offset=2, shards=8, shards_thorough=16, label='throwing-comparator'),
+          J('drv_queue_mt', 'plain', 'c06', 3200, 60000, opts={'cfg': '2'}, seed_offset=3, shards=8, shards_thorough=16, label='stability-mt')],
     assumptions=['comparators used are strict weak orders'],
     technique='online next-callback-expectation monitor with ordered-pending model + trace-level monotonicity/stability oracle; ASan+UBSan',
     level_text='Exploration: as C05, on ordered queue lists, with heavy key duplication.',
@@ -315,8 +319,10 @@ CHECKS['C14'] = dict(
          'expected prototype is computed by an independent std::is_invocable fold; every listener and predicate call is checked online; a processIf call must show its predicate every event that was queued when it began, '
          'prototype by prototype in list order up to and including the first prototype of which it accepted one (a call that returns false has examined everything); the large payload type asks for 16-byte alignment and its address is checked wherever it is handed out; payload ledger; non-trivial: queues - >=3 prototypes enqueued, a '
          'processIf over own and foreign events, a slot recycled to another kind, >=1 listener call; lists/dispatchers - listeners of >=3 prototypes, a callable accepted by several prototypes, a successful '
-         'remove, >=1 call; distinct = trace hash + configuration',
-    jobs=JS('drv_heter', 'asan17', 'all', 36000, 900000, MH, shards=2, shards_thorough=4) + JS('drv_heter', 'clang-asan17', 'pif', 18000, 360000, MH, seed_offset=1, shards=2, shards_thorough=4),
+         'remove, >=1 call; distinct = trace hash + configuration; '
+         'the heterogeneous family of the C09 fault enumeration is run as well: a copy of an argument that throws at any point of an enqueue (the third copy constructs the object inside the type-erased slot) must leave no slot tagged as holding an object it does not hold',
+    jobs=JS('drv_heter', 'asan17', 'all', 36000, 900000, MH, shards=2, shards_thorough=4) + JS('drv_heter', 'clang-asan17', 'pif', 18000, 360000, MH, seed_offset=1, shards=2, shards_thorough=4)
+         + [J('drv_fault', 'asan17-fault', '', 480, 9000, defs=['-DVF_CFG_MASK=0xc0'], opts={'kind': '7'}, seed_offset=2, shards=8, shards_thorough=16, label='heter-under-faults')],
     assumptions=['processIf completeness is not asserted (only: right prototypes, queue order per prototype, at most one examination per event, accepted events dispatched once, result)',
                  'listener changes from inside callbacks belong to C02'],
     technique='online differential monitor with independent prototype-selection oracle, typed payload ledger, slot-recycling model, g++ and clang++, ASan+UBSan (type confusion shows as wild reads)',
@@ -428,6 +434,14 @@ def _c20_jobs():
     # prior memory through a key built from a convertible event argument (const char * -> std::string): heterogeneous dispatcher / queue with std::string keys
     for v, so in (('asan17', 10), ('clang-asan17', 11)):
         jobs.append(J('drv_heter', v, 'all', 3000, 60000, defs=['-DVF_CFG_MASK=0x220'], opts={'tag': 'c20'}, seed_offset=so, shards=4, shards_thorough=8, label='heter-keys'))
+    # compiler / standard level as a configuration of the queue with movable (std::string) keys and temporaries enqueued: `return e;` of an
+    # rvalue-reference parameter copies with g++ up to C++17 and moves with g++ -std=c++20 and with clang++ at every level
+    for v, so in (('asan20', 12), ('clang-asan', 13)):
+        jobs.append(J('drv_queue', v, 'c05', 700, 20000, defs=['-DVF_CFG_MASK=0x3'], opts={'cfg': '1'}, seed_offset=so, shards=4, shards_thorough=8, label='string-keys'))
+        jobs.append(J('drv_queue', v, 'c05', 700, 20000, defs=['-DVF_CFG_MASK=0x700'], opts={'cfg': '8'}, seed_offset=so, shards=4, shards_thorough=8, label='string-keys-getevent-by-value'))
+    # threading policy under faults: after an exception inside listener management a really locking policy (std::mutex) must be as
+    # usable as the no-op one (dispatcher families of the C09 fault enumeration: default policies and SingleThreading; a lock left held = hang)
+    jobs.append(J('drv_fault', 'asan17-fault', '', 360, 6000, defs=['-DVF_CFG_MASK=0x0c'], opts={'tag': 'c20'}, seed_offset=14, shards=4, shards_thorough=8, label='policies-under-faults'))
     return jobs
 
 
@@ -464,6 +478,8 @@ CHECKS['C20'] = dict(
          'std::map, user map(std::greater)+Single, IncludeEvent+SpinLock, custom callback}; queues (argument type with alignof 16: misplaced storage works at -O0 and faults at -O2): {default, Single, SpinLock, std::map+custom callback, IncludeEvent+Single} - each member checked against the model '
          'in-process and the observable traces (operations, results, calls with arguments) compared by hash; a second dispatcher family has a by-value std::string key in the prototype (the shape on which unspecified argument evaluation order shows); build matrix: g++ 12 / clang++ 14 x -std=c++11/14/17/20 x -O0/-O2 (4 builds quick, 16 thorough), same '
          'seeds, per-driver trace accumulators compared across builds; heterogeneous dispatcher and queue with std::string keys whose events are also passed as const char * (the key object the library builds must outlive its use: ASan), g++ and clang++; pool storage pre-filled with 0x00/0xFF/0xA5/0x5C/random before construction, plus a memcheck run with the storage left undefined; '
+         'the queue configurations with movable std::string keys and temporaries enqueued (default getEvent, and a getEvent policy taking the key by value) are also built with g++ -std=c++20 and clang++ (an rvalue-reference parameter returned by name is copied up to C++17 and moved from C++20 on / by clang++); '
+         'threading policy under faults: the dispatcher families of the C09 fault enumeration (default = std::mutex, and SingleThreading) must stay equally usable after every injected exception (a lock left held on an exception path hangs only the locking policies); '
          'evaluations = programs x family members x builds; distinct = trace hash',
     jobs=_c20_jobs(),
     post=_c20_post,
